@@ -156,6 +156,16 @@ open JanetModel.Gen.Sandbox in
 theorem gen_keywords : keywordsCover options defines = true := by decide +kernel
 
 open JanetModel.Gen.Sandbox in
+/-- the regenerated data-flow shape of vm.c `janet_sandbox` and corelib.c `janet_core_sandbox` is the one `sandboxOp` /
+    `sandboxCfun` model (assert of the sandbox capability, or-in; accumulator from 0 over `sandbox_options[]` flags, panic for
+    an unknown keyword) -/
+theorem gen_sandboxShape : sandboxShapeOK sandboxShape = true ∧ capSandbox = 1 := by decide +kernel
+
+/-- non-vacuity: `flags = opt->flag` (assignment instead of or-in) is not the shape -/
+example : sandboxShapeOK [("janet_sandbox", "janet_sandbox_assert(1); flags |= parameter"),
+    ("janet_core_sandbox", "unrecognised: the mask local is assigned: %33 = load i32, i32* %32, align 8")] = false := by decide
+
+open JanetModel.Gen.Sandbox in
 /-- the translator's summary `mayGrow` is closed: certificate check by kernel evaluation -/
 theorem gen_mayGrow : mayGrowOK mayGrowAt noGrowEdges benignCallees flagWriters = true := by decide +kernel
 
